@@ -397,11 +397,11 @@ def propagate_aliases(fn):
     aliases = {}
 
     def pure_paths(e):
-        """Paths read by a pure expression: an attribute path, or a tuple/list of paths, names and constants."""
+        """Paths read by a pure expression: an attribute path, or a tuple of paths, names and constants."""
         p = _path(e)
         if p and len(p) >= 2:
             return [p]
-        if isinstance(e, (ast.Tuple, ast.List)) and e.elts:
+        if isinstance(e, ast.Tuple) and e.elts:  # never a list display: it makes a new mutable object each time
             out = []
             for x in e.elts:
                 if isinstance(x, ast.Constant):
